@@ -75,6 +75,7 @@ def unpackZipEntry {σ : Type} (ops : FsOps σ) (myUid myGid : Nat) (filt : Unpa
   | .meta_ fmeta =>
     if hasPrefix fmeta.name.str [dot, dot] then .err .wareCorrupt else
     if fmeta.kind ≠ .dir ∧ st.pre.has fmeta then .err .wareCorrupt else      -- repeated entry
+    if st.pre.has (twinOf fmeta) then .err .wareCorrupt else                  -- a directory and something else under one name
     match conjureParents ops myUid myGid filt fmeta.name.splitParent st with
     | .panic w => .panic w
     | .err c => .err c
